@@ -319,8 +319,18 @@ func runExports(shapes []*shape, dir string) {
 				}
 				ok := judge(entry, t.s, m, in, o, "")
 				if o.kind == "panic" || o.kind == "hang" {
-					dropReplica(rep)
-					rep = newReplica(dir, l, n)
+					// a panic while parsing leaves the store alone: keep the replica if its state is readable and
+					// unchanged, rebuild it otherwise (a lock left behind would show as a stuck snapshot)
+					var after stState
+					p, h, _ := vh.Guard(2*time.Second, func() { after = snapshot(rep) })
+					if o.kind == "hang" || p || h || after != before {
+						if !p && !h && o.kind == "panic" && after != before {
+							res.Violate("store.ReplicateTx:partial-effect-before-panic:"+fmt.Sprintf("%s.%s:%s", t.s.Fmt, m.Field, mutName(m)),
+								fmt.Sprintf("ReplicateTx panicked after changing the store: precommitted %d->%d", before.p, after.p), nil)
+						}
+						dropReplica(rep)
+						rep = newReplica(dir, l, n)
+					}
 					continue
 				}
 				after := snapshot(rep)
